@@ -552,6 +552,9 @@ func (fr *frame) applyContract(d *Decl, callee *ssa.Function, sig *types.Signatu
 			if i >= len(argT) {
 				break
 			}
+			if isIface(argT[i]) {
+				continue
+			}
 			for _, inv := range fr.invFacts(pre, argT[i], args[i]) {
 				lab := fmt.Sprintf("%s%s#%d:arg%d", fr.prefix, shortKey(key), ord, i)
 				fr.vc.oblige("typeinv@call", lab, g, inv, "type invariant of argument "+fmt.Sprint(i)+" of "+key, fr.props, posOf(fr.fn, pos))
@@ -609,7 +612,7 @@ func (fr *frame) applyContract(d *Decl, callee *ssa.Function, sig *types.Signatu
 			res = append(res, c)
 		}
 	} else {
-		res = fr.freshResults(v, sig, st, g, hint, d.Kind == "func")
+		res = fr.freshResults(v, sig, st, g, hint, true)
 	}
 	fr.setResult(v, res)
 	post := vc.newSpecEnv(ctxFn, st, pre)
